@@ -432,11 +432,17 @@ def txBufLen : Nat := 512
 
 def handshakeHdr : Hdr := { hs := true, beg := true, fin := true, mgmt := true, opcode := 0x6c }
 
+/-- the MTU announced in our Handshake Request -/
+def announcedMtu (gattMtu : Option Nat) : Nat :=
+  match gattMtu with
+  | some g => clamp g minMtu maxMtu
+  | none => minMtu
+
 /-- `Session::prep_tx_handshake`: the bytes (`[]` = nothing to send) -/
 def Session.prepTxHandshake (s : Session) (gattMtu : Option Nat) (now : Nat) : Except Fail (Session × List Nat) :=
   if s.handshakePending then
     if s.initiator then
-      let mtu := match gattMtu with | some g => clamp g minMtu maxMtu | none => minMtu
+      let mtu := announcedMtu gattMtu
       match csub mtu gattHeaderSize "handshake req: mtu - GATT_HEADER_SIZE" with
       | .error e => .error e
       | .ok m =>
@@ -453,39 +459,39 @@ def Session.prepTxHandshake (s : Session) (gattMtu : Option Nat) (now : Nat) : E
              handshakeHdr.encode ++ [s.version, s.mtu % 256, s.mtu / 256 % 256, s.windowSize])
   else .ok (s, [])
 
+/-- header + payload of the next segment of `prep_tx_data` (`data = []`: a stand-alone ACK) -/
+def Session.buildSegment (s : Session) (data : List Nat) (offset : Nat) : Except Fail (Hdr × List Nat) :=
+  let h0 : Hdr := { seqNum := s.send.nextSeq,
+                    ack := s.recv.pendingAck.isSome, ackNum := s.recv.pendingAck.getD 0 }
+  if !data.isEmpty then
+    let h1 : Hdr := if offset = 0 then { h0 with beg := true, msgLen := data.length % 65536 }
+                    else { h0 with cont := true }
+    if offset > data.length then .error (.panic "prep_tx_data: slice start out of range")
+    else
+      match csub s.mtu h1.len "prep_tx_data: mtu - hdr.len()" with
+      | .error e => .error e
+      | .ok maxPayload =>
+        let chunkEnd := min (data.drop offset).length maxPayload
+        .ok (if chunkEnd = (data.drop offset).length then { h1 with fin := true } else h1,
+             (data.drop offset).take chunkEnd)
+  else .ok (h0, [])
+
 /-- `Session::prep_tx_data(data, offset, buf)`: new session, segment bytes (`[]` = window full), new offset -/
 def Session.prepTxData (s : Session) (data : List Nat) (offset now : Nat) :
     Except Fail (Session × List Nat × Nat) :=
   if s.send.isFull s.recv then .ok (s, [], offset)
   else
-    let h0 : Hdr := { seqNum := s.send.nextSeq,
-                      ack := s.recv.pendingAck.isSome, ackNum := s.recv.pendingAck.getD 0 }
-    let seg : Except Fail (Hdr × List Nat) :=
-      if !data.isEmpty then
-        let h1 : Hdr := if offset = 0 then { h0 with beg := true, msgLen := data.length % 65536 }
-                        else { h0 with cont := true }
-        if offset > data.length then .error (.panic "prep_tx_data: slice start out of range")
-        else
-          let remaining := data.drop offset
-          match csub s.mtu h1.len "prep_tx_data: mtu - hdr.len()" with
-          | .error e => .error e
-          | .ok maxPayload =>
-            let chunkEnd := min remaining.length maxPayload
-            let h2 : Hdr := if chunkEnd = remaining.length then { h1 with fin := true } else h1
-            .ok (h2, remaining.take chunkEnd)
-      else .ok (h0, [])
-    match seg with
+    match s.buildSegment data offset with
     | .error e => .error e
     | .ok (h, payload) =>
-      let bytes := h.encode ++ payload
-      if bytes.length > txBufLen then .error .noSpace
+      if (h.encode ++ payload).length > txBufLen then .error .noSpace
       else
         match s.send.postSend now with
         | .error e => .error e
         | .ok w =>
           match s.recv.postSend with
           | .error e => .error e
-          | .ok r => .ok ({ s with send := w, recv := r }, bytes, offset + payload.length)
+          | .ok r => .ok ({ s with send := w, recv := r }, h.encode ++ payload, offset + payload.length)
 
 /-- `Session::is_ack_due(now, ack_timeout_secs)` -/
 def Session.isAckDue (s : Session) (now timeout : Nat) : Bool :=
